@@ -80,6 +80,9 @@ func c13(e *Env) {
 			k3.validChain("valid-chain")
 			e.capNeverBinds(k3)
 		})
+		// "all Not Defined: temporal = base" is Roundup(base x 1 x 1 x 1) = base: the round-up helper must leave a value
+		// that is already a tenth where it is, i.e. be the specification's algorithm
+		e.roundUpReference(k3, "round-up-helper")
 		e.constructorDefaults(k3.level("Temporal"), "constructor-default")
 		e.constructorDefaults(k3.level("Environmental"), "constructor-default")
 	}
